@@ -93,7 +93,49 @@ func init() {
 	})
 }
 
+// c14ManyHashers: tens of thousands of hashers alive at once (a pool, slab or free list of hasher states would
+// hand out a state that is still in use): each starts at zero, each is fed its own data in an interleaved order, and
+// each ends with the reference checksum of its own data.
+func c14ManyHashers(w *vx.W) {
+	if w.Shard != 0 {
+		return
+	}
+	n := 70000
+	hs := make([]hash16, n)
+	for i := range hs {
+		hs[i] = dyncrc16.New()
+		if s := hs[i].Sum16(); s != 0 {
+			w.Violation("crc/many-hashers", fmt.Sprintf("the %d-th hasher created in this process starts with checksum %#04x instead of 0", i+1, s), c14Replay{Kind: "many-hashers"})
+			return
+		}
+	}
+	data := func(i, part int) []byte {
+		return []byte{byte(i), byte(i >> 8), byte(i >> 16), byte(part), byte(i*7 + part)}
+	}
+	for part := 0; part < 3; part++ {
+		for i := range hs {
+			j := (i*7919 + part*13) % n // a permutation (7919 is prime and does not divide n)
+			hs[j].Write(data(j, part))
+		}
+	}
+	w.Eval(int64(n))
+	w.Fam("many-hashers-alive-at-once", int64(n))
+	for i := range hs {
+		want := fitmodel.CRC(fitmodel.Concat(data(i, 0), data(i, 1), data(i, 2)))
+		if got := hs[i].Sum16(); got != want {
+			w.Violation("crc/many-hashers", fmt.Sprintf("hasher %d of %d alive at once: checksum %#04x, reference %#04x for the 15 bytes written to it", i+1, n, got, want), c14Replay{Kind: "many-hashers"})
+			return
+		}
+	}
+}
+
+type hash16 interface {
+	Write([]byte) (int, error)
+	Sum16() uint16
+}
+
 func runC14(w *vx.W) {
+	c14ManyHashers(w)
 	c14FirstUse(w)
 	c14Alignment(w)
 	procsFamily(w, "C14", "checksum")
